@@ -89,6 +89,18 @@ def import_from_yaml(
     return sc
 
 
+class _Representer(yaml.representer.SafeRepresenter):
+    def represent_str(self, data):
+        # A "next line" character (U+0085) is written as a line break, and a single line break
+        # is folded into a space when the document is loaded: such strings have to be escaped
+        if '\x85' in data:
+            return self.represent_scalar('tag:yaml.org,2002:str', data, style='"')
+        return super().represent_str(data)
+
+
+_Representer.add_representer(str, _Representer.represent_str)
+
+
 def export_to_yaml(statechart: Statechart, filepath: str = None) -> str:
     """
     Export given *Statechart* instance to YAML. Its YAML representation is returned by
@@ -101,6 +113,7 @@ def export_to_yaml(statechart: Statechart, filepath: str = None) -> str:
     output = StringIO()
 
     yml = yaml.YAML(typ='safe', pure=True)
+    yml.Representer = _Representer
     # Block style only: in flow style, some scalars (e.g. starting with "?" or ":") are written
     # without quotes and cannot be loaded back
     yml.default_flow_style = False
